@@ -117,6 +117,19 @@ def run_history(ops, path, prop, snap=False, model=True, oracle_timeout=600):
         # specification oracle alone and the thorough tier runs the model as well
         g = strip_growth_lines(g)
         m, d = None, None
+    # a write attempted through a read-only collection is refused either by the faulting mapping or by an error, depending on
+    # what earlier refused attempts left in the memory of that handle (not modelled): one code for "refused" on both sides
+    own = line_owner(ops)
+    for lines_ in (g, m):
+        if lines_ is None:
+            continue
+        for k in range(min(len(lines_), len(own))):
+            if ops[own[k]].get('ro'):
+                f = lines_[k].split()
+                if len(f) == 2 and f[1] in ('1', '2'):
+                    lines_[k] = f[0] + ' 9'
+    if model:
+        d = first_diff(g, m)
     coll = ops[0]['op'] == 40
     sc = spec_check(ops, g) if coll else None
     if sc is None and grc != 0:
